@@ -39,7 +39,8 @@ REQUIRED = dict(monitors=['restricted-equals-full', 'restricted-grid-is-subset',
                 classes=['sequence:fault', 'grid:inside', 'grid:edge', 'grid:partly-outside', 'grid:observation', 'model:emission',
                          'different-native-grids', 'layout:xsec', 'layout:ktable', 'contrib:HydrogenIon',
                          'sliding-window-same-size', 'request:own-full', 'request:foreign-same-ends-and-count',
-                         'request:foreign-shifted-same-count', 'request:own-sub-range', 'request:foreign-random'])
+                         'request:foreign-shifted-same-count', 'request:own-sub-range', 'request:foreign-random',
+                         'requested-order:ascending', 'requested-order:descending', 'requested-order:shuffled'])
 CUT = math.exp(-10.0)
 
 
@@ -307,8 +308,17 @@ def wl_binning(ctx, rng):
     if model is None:
         return
     full = run_tm(ctx, model)
-    sub = run_tm(ctx, model, wngrid=obs.wavenumberGrid)
-    compare_tm(ctx, 'restricted-equals-full', full, sub, 'observation grid')
+    # the requested grid as the observation gives it (ascending wavenumber), as 10000/ascending-wavelength
+    # (descending wavenumber), or in file order (shuffled): which points are asked for is all that may matter
+    req = np.array(obs.wavenumberGrid, dtype=float)
+    how = ['ascending', 'descending', 'shuffled'][rng.choice(3, p=[0.5, 0.35, 0.15])]
+    if how == 'descending':
+        req = req[::-1].copy()
+    elif how == 'shuffled':
+        req = req[rng.permutation(len(req))]
+    ctx.observe('requested-order:' + how)
+    sub = run_tm(ctx, model, wngrid=req)
+    compare_tm(ctx, 'restricted-equals-full', full, sub, 'observation grid (%s)' % how)
     bf = binner.bin_model((full['wn'], full['depth'], full['ret_trans'], None))
     bs = binner.bin_model((sub['wn'], sub['depth'], sub['ret_trans'], None))
     sk = skipped(full) | skipped(sub)
